@@ -518,6 +518,7 @@ def render(x) -> str:
         "-- GENERATED by translator/gen_kernels_regul.py from pandora/interval_tools.py. Do not edit.",
         "import PandoraModel.Model.PyScanGraph",
         "import PandoraModel.Model.PyAgg",
+        "import PandoraModel.Model.PyRows",
         "set_option linter.unusedVariables false",
         "namespace Pandora.Generated.KernelsRegul",
         "open Pandora",
@@ -579,6 +580,7 @@ def render(x) -> str:
             rhs = "[" + ", ".join("[" + ", ".join("true" if v else "false" for v in r) + "]" for r in m) + "]"
             lines.append(f"example : createConnectedGraph {len(bl)} {lean_fun(bl)} {lean_fun(br)} {depth} = {rhs} := by decide +kernel")
     lines.append(render_graphreg(extract_graphreg()))
+    lines.append(render_borders(extract_borders()))
     lines += ["", "end Pandora.Generated.KernelsRegul"]
     return "\n".join(lines) + "\n"
 
@@ -875,6 +877,118 @@ def render_graphreg(x) -> str:
     finally:
         CELL_STYLE = "fun"
     return "\n".join(lines)
+
+
+# ------------------------------------------------------------------------------------------------
+# interval_regularization: the segment extraction (whole-array numpy statements) and the two calls
+# ------------------------------------------------------------------------------------------------
+IFN = "interval_regularization"
+import re as _re
+
+INT = r"(-?\d+)"
+ID = r"([A-Za-z_]\w*)"
+BORDER_STMTS = [
+    ("shape", rf"^{ID}, _ = {ID}\.shape$"),
+    ("pad", rf"^{ID} = {ID} // {INT}$"),
+    ("hstack", rf"^{ID} = np\.hstack\(\(np\.ones\(\({ID}, {ID}\)\), {ID}, np\.ones\(\({ID}, {ID}\)\)\)\)$"),
+    ("nanmin", rf"^{ID} = np\.nanmin\(np\.lib\.stride_tricks\.sliding_window_view\({ID}, {ID}, axis=1\), axis=-1\)$"),
+    ("last", rf"^{ID}\[:, -1\] = {INT}$"),
+    ("diff", rf"^{ID} = np\.diff\(np\.hstack\(\[np\.ones\(\({ID}\.shape\[0\], 1\)\), {ID} (>=|>|<=|<) {ID}\]\), axis=-1\)$"),
+    ("left", rf"^{ID} = np\.argwhere\({ID} == {INT}\)$"),
+    ("right", rf"^{ID} = np\.argwhere\({ID} == {INT}\)$"),
+    ("shift", rf"^{ID}\[:, 1\] = {ID}\[:, 1\] - {INT}$"),
+    ("graph", rf"^{ID} = create_connected_graph\({ID}, {ID}, {ID}\)$"),
+    ("ret", rf"^return graph_regularization\({ID}, {ID}, {ID}, {ID}, {ID}, {ID}\)$"),
+]
+
+
+def extract_borders():
+    fn = find_function(module(), IFN)
+    if fn.decorator_list:
+        raise Unsupported(f"{IFN}: unexpected decorator")
+    params = [a.arg for a in fn.args.args]
+    if len(params) != 7:
+        raise Unsupported(f"{IFN}: parameters {params}")
+    g_inf, g_sup, amb, thr, ksz, depth, quant = params
+    body = [s for s in fn.body if not (isinstance(s, ast.Expr) and isinstance(getattr(s, "value", None), ast.Constant))]
+    if len(body) != len(BORDER_STMTS):
+        raise Unsupported(f"{IFN}: {len(body)} statements, expected {len(BORDER_STMTS)}")
+    g = {}
+    for s, (tag, rx) in zip(body, BORDER_STMTS):
+        m_ = _re.match(rx, _u(s).replace("\n", " "))
+        if not m_:
+            raise Unsupported(f"{IFN}: statement `{_u(s)[:90]}` is not of the form read for `{tag}`")
+        g[tag] = m_.groups()
+    n_row, a0 = g["shape"]
+    pad, k0, div = g["pad"]
+    m1, nl, pl, a1, nr, pr = g["hstack"]
+    m2, m1b, k1 = g["nanmin"]
+    m3, last = g["last"]
+    bd, m4, m5, op, t0 = g["diff"]
+    left, bd1, cl = g["left"]
+    right, bd2, cr = g["right"]
+    r1, r2, sh = g["shift"]
+    gr, gl, grr, gd = g["graph"]
+    ret = g["ret"]
+    ok = (a0 == amb and a1 == amb and k0 == ksz and k1 == ksz and nl == n_row and nr == n_row and pl == pad and pr == pad
+          and m1b == m1 and m2 == m1 and m3 == m1 and m4 == m1 and m5 == m1 and t0 == thr and bd1 == bd and bd2 == bd
+          and r1 == right and r2 == right and left != right and (gl, grr, gd) == (left, right, depth)
+          and ret == (g_inf, g_sup, left, right, gr, quant))
+    if not ok:
+        raise Unsupported(f"{IFN}: the statements do not chain as expected (names: {g})")
+    if int(div) <= 0 or int(sh) < 0:
+        raise Unsupported(f"{IFN}: divisor / shift out of range")
+    return {"params": params, "div": int(div), "last": int(last), "op": op, "cl": int(cl), "cr": int(cr), "shift": int(sh),
+            "source": "\n".join(_u(s) for s in body).replace("-/", "- /").replace("/-", "/ -")}
+
+
+def evaluate_borders(x, amb, thr, ksz):
+    """exact reading: (border_left, border_right) as lists of [row, col]; `amb` rows of Fractions / "nan" """
+    pad = ksz // x["div"]
+    lefts, rights = [], []
+    cmp_ = {">=": lambda a, b: a >= b, ">": lambda a, b: a > b, "<=": lambda a, b: a <= b, "<": lambda a, b: a < b}[x["op"]]
+    for r, row in enumerate(amb):
+        p = [1] * pad + list(row) + [1] * pad
+        m = []
+        for j in range(len(p) + 1 - ksz):
+            w = [v for v in p[j:j + ksz] if v != "nan"]
+            m.append(min(w) if w else "nan")
+        if m:
+            m[-1] = x["last"]
+        flags = [1] + [int(v != "nan" and cmp_(v, thr)) for v in m]
+        d = [b - a for a, b in zip(flags, flags[1:])]
+        lefts += [[r, j] for j, v in enumerate(d) if v == x["cl"]]
+        rights += [[r, j - x["shift"]] for j, v in enumerate(d) if v == x["cr"]]
+    return lefts, rights
+
+
+def render_borders(x) -> str:
+    g_inf, g_sup, amb, thr, ksz, depth, quant = x["params"]
+    if x["op"] != ">=":
+        raise Unsupported(f"{IFN}: comparison `{x['op']}` has no run-time support (only `>=`)")
+    return "\n".join([
+        "",
+        f"/- pandora/interval_tools.py: {IFN}",
+        x["source"],
+        "-/",
+        f"def regulBorders ({amb} : List (List Val)) ({thr} : Rat) ({ksz} : Nat) : List (Nat × Nat) × List (Nat × Nat) :=",
+        f"  let pad : Nat := {ksz} / {x['div']}",
+        f"  let m : List (List Val) := PyRows.hstackConst 1 pad pad {amb}",
+        f"  let m : List (List Val) := PyRows.slidingNanmin m {ksz}",
+        f"  let m : List (List Val) := PyRows.setLastCol m ({x['last']} : Rat)",
+        f"  let border : List (List Int) := PyRows.diffOnes (PyRows.ge m {thr})",
+        f"  let border_left : List (Nat × Nat) := PyRows.argwhere border ({x['cl']} : Int)",
+        f"  let border_right : List (Nat × Nat) := PyRows.argwhere border ({x['cr']} : Int)",
+        f"  let border_right : List (Nat × Nat) := PyRows.subCol1 border_right {x['shift']}",
+        "  (border_left, border_right)",
+        "",
+        f"/-- `{IFN}(…)[0:2]`: the segments, `create_connected_graph` on them, `graph_regularization` on that graph -/",
+        f"def intervalRegularization (pyNanquantile : List Val → Rat → Val) ({g_inf} {g_sup} {amb} : List (List Val)) ({thr} : Rat)",
+        f"    ({ksz} {depth} : Nat) ({quant} : Rat) : List (List Val) × List (List Val) :=",
+        f"  let b := regulBorders {amb} {thr} {ksz}",
+        f"  let graph : List (List Bool) := createConnectedGraph b.1.length (PyAgg.cell b.1) (PyAgg.cell b.2) {depth}",
+        f"  graphRegularization pyNanquantile {g_inf} {g_sup} b.1 b.2 graph {quant}",
+    ])
 
 
 def generate():
